@@ -295,6 +295,12 @@ def make_body(sc, e, raised_objs):
                                   nb.prefetch(1, b + 17),
                                   nb.prefetch(w + 1, b + 9, 't',
                                               catch_filter_exception=Exception)]
+                    if sc['neighbour'] == 'active':
+                        # consumed completely while the iterator under test is
+                        # suspended: many hand-overs through small buffers
+                        long_ = ld.new(list(range(400))).map(_nb_fn)
+                        neighbours += [long_.prefetch(1, 1), long_.prefetch(1, 3),
+                                       long_.prefetch(2, 2, 't')]
             except S.STOP:
                 raise
             except BaseException as exc:
@@ -329,6 +335,18 @@ def make_body(sc, e, raised_objs):
                         ev('deliver2', delivered2[-1])
                     except StopIteration:
                         ev('exhausted2')
+                if sc.get('neighbour') == 'active' and len(delivered) == 1:
+                    # with this iterator suspended after its first example,
+                    # the neighbours (other prefetching datasets) are consumed
+                    # completely: their hand-overs are none of its business
+                    if wait:
+                        import time
+                        time.sleep(10 * wait)     # let the producer fill its buffer first
+                    ev('neighbours_start')
+                    for nbd in neighbours:
+                        for _v in nbd:
+                            pass
+                    ev('neighbours_end')
                 if sc.get('nested') and len(delivered) == 2:
                     # with this iterator suspended, the same dataset object is
                     # iterated completely, `nested` times (a validation pass,
